@@ -39,6 +39,12 @@ func init() {
 		assumptions: append([]string{"math.Float32bits/Float64bits are bit-injective and == on floats identifies +0 and -0 (Go specification facts frozen in the checker)"}, commonAssumptions...),
 		technique:   "abstract interpretation of the hash generator into residual programs + AST lints (input whitelist, ordered-map-traversal, leaf-table contradiction)",
 	}
+	checks["C05"] = &checkDef{
+		run: runR_C05,
+		explanation: "Engine R on deepcopy and clone: (R10) only dst-rooted locations are written; (R11 copy-taint) a src-rooted value reaches dst by plain assignment / *dst = *src / copy() only on paths where the generator established canCopy for exactly that component's type (resolved through the symbolic type graph), helper and method calls are (dst, src) / src.DeepCopy(dst) on mirror components; every nilable component is set to nil exactly under src==nil and freshly allocated (new/make) under src!=nil before it is filled; the destination-slice reuse code is evaluated over {dst nil?, len(dst)?len(src), cap(dst)>=len(src)}: every consistent row must end non-nil with equal length and no reslice beyond capacity; (R19) every field is copied; clone = nil-propagation + fresh allocation + deepcopy(dst, src). G9 tabulates canCopy. Not decided: value equality of the copy, user DeepCopy methods, aliasing inside the prior destination.",
+		assumptions: commonAssumptions,
+		technique:   "abstract interpretation of the deepcopy/clone generators into residual programs + taint/guard-set analyses and a finite resize-state table; predicate tabulation",
+	}
 	checks["C07"] = &checkDef{
 		run: func(c *Ctx) {
 			runG4(c.Repo, c.Rep)
